@@ -209,7 +209,9 @@ def run(ctx: Ctx) -> None:
                             for ci in range(n_calls):
                                 cap.msgs.clear()
                                 with ctx.guard("C17:call", {**key, "call": ci}) as g:
-                                    outs.append(fwd_bwd(cur, x, 7))
+                                    # only the stochastic format is pinned by re-seeding; nearest / lossless formats and
+                                    # plain unit scaling are deterministic, so the RNG state must not matter
+                                    outs.append(fwd_bwd(cur, x, 7 if fname == "fp8" else 7 + 13 * ci))
                                 if g.failed:
                                     ok = False
                                     break
